@@ -5,6 +5,7 @@
 From Coq Require Import List Arith ZArith QArith Bool Ring_theory Setoid.
 Import ListNotations.
 Require Import Base.C09_Poly Base.C09_PolyQ Model.C09_Elem Proofs.C09_ElemProofs Proofs.C09_ChainProofs.
+Require Import Proofs.C09_PiolaProofs.
 Require Import Gen.C09_Elements Gen.C09_T2 Dyn.C09Pull Dyn.C09Mapped.
 From Coq Require Reals.
 From Coquelicot Require Import Hierarchy Derive.
@@ -355,7 +356,7 @@ Proof.
   split; [exact hcurl_curl3_scale | exact cov_value3_is_generated].
 Qed.
 Print Assumptions C09_hcurl_covariant_curl_3d.
-(* not proved (oracle only): H(div)/H(curl) Piola maps on multilinear geometries, matrix Piola map of the HHJ elements *)
+(* not proved (oracle only): the 3-D covariant curl on general cells *)
 
 (* ---- general cells (multilinear quadrilaterals / hexahedra, curved second-order cells): per class, at every rational
    reference point X where the delivered Jacobian J is invertible with B = invDF, B J = I: the delivered global gradient
@@ -395,6 +396,62 @@ Theorem C09_h1_gradient_general_cell_3d :
       == qeval (pderiv k p) X.
 Proof. exact h1_general_cell_gradient3. Qed.
 Print Assumptions C09_h1_gradient_general_cell_3d.
+
+(* ---- Piola maps on GENERAL cells (multilinear quadrilaterals / hexahedra, curved cells), pointwise and in reference
+   quantities only (no inverse map).  At a reference point X: J = DF, H i j k (j <= k) = d_k J_ij = d_j J_ik the symmetric
+   second derivatives of the cell map (C10_iso_J_is_derivative_of_F: the delivered J is the derivative of the polynomial
+   map F, so its derivative is symmetric; Piola identity of the generated maps below).  For a field given in reference
+   coordinates the chain rule d_k V_i = sum_j G_ij J_jk gives the global Jacobian G = (dV) adj(J) / det.
+   Contravariant map, W = J phi = det * (J phi / det):  det^3 * div_global (J phi / det) = piola_div_lhs J H phi dphi.
+   Per class, every rational X, every J and H:  that expression is det^2 * (delivered reference div at X), i.e.
+   div_global of the delivered value = dphi / det — the formula gbasis delivers (with |det| orient, theorem hdiv_div_scale). ---- *)
+Theorem C09_hdiv_general_cell_divergence :
+  (forall e, In e all_elements -> e_dim e = 2%nat -> forall v dv, In (BHdiv v dv) (e_basis e) ->
+   forall (J : nat -> nat -> Q) (H : nat -> nat -> nat -> Q) (X : nat -> Q),
+     piola_div_lhs2 J H (fun j => qeval (nthp v j) X) (fun j k => qeval (pderiv k (nthp v j)) X) == det2 J * det2 J * qeval dv X) /\
+  (forall e, In e all_elements -> e_dim e = 3%nat -> forall v dv, In (BHdiv v dv) (e_basis e) ->
+   forall (J : nat -> nat -> Q) (H : nat -> nat -> nat -> Q) (X : nat -> Q),
+     piola_div_lhs3 J H (fun j => qeval (nthp v j) X) (fun j k => qeval (pderiv k (nthp v j)) X) == det3 J * det3 J * qeval dv X).
+Proof. split; [exact hdiv_general_cell_divergence2 | exact hdiv_general_cell_divergence3]. Qed.
+Print Assumptions C09_hdiv_general_cell_divergence.
+
+(* covariant map, 2-D H(curl) classes: U = adj(J)^T phi = det * J^-T phi; det^3 * curl_global (J^-T phi) = piola_curl_lhs2 =
+   det^2 * (delivered reference curl): curl_global of the delivered value = dphi / det *)
+Theorem C09_hcurl_general_cell_curl_2d :
+  forall e, In e all_elements -> forall v cl, In (BHcurl2 v cl) (e_basis e) ->
+  forall (J : nat -> nat -> Q) (H : nat -> nat -> nat -> Q) (X : nat -> Q),
+    piola_curl_lhs2 J H (fun j => qeval (nthp v j) X) (fun j k => qeval (pderiv k (nthp v j)) X) == det2 J * det2 J * qeval cl X.
+Proof. exact hcurl_general_cell_curl2. Qed.
+Print Assumptions C09_hcurl_general_cell_curl_2d.
+
+(* the multilinear cell maps F_j = sum_n node(n,j) phi_n built from the DELIVERED ElementQuad1 / ElementHex1 basis (node
+   coordinates as further polynomial variables) satisfy the Piola identity sum_k d_k adj(DF)_(k,i) = 0 at every point and
+   for every position of the nodes (in every ring over Q) *)
+Theorem C09_cell_maps_piola_identity :
+  forall (R : Type) (rO rI : R) (radd rmul rsub : R -> R -> R) (ropp : R -> R) (req : R -> R -> Prop) (phi : Q -> R),
+    Equivalence req -> ring_eq_ext radd rmul ropp req -> ring_theory rO rI radd rmul rsub ropp req ->
+    ring_morph rO rI radd rmul rsub ropp req 0%Q 1%Q Qplus Qmult Qminus Qopp Qeq_bool phi ->
+    forall d F, In (d, F) cell_maps -> piola_identity_spec R rO rI radd rmul req phi d F.
+Proof.
+  intros R rO rI radd rmul rsub ropp req phi H1 H2 H3 H4 d F Hin.
+  apply (piola_identity_sound R rO rI radd rmul rsub ropp req phi H1 H2 H3 H4).
+  exact (proj1 (Forall_forall _ _) cell_maps_piola_ok _ Hin).
+Qed.
+Print Assumptions C09_cell_maps_piola_identity.
+
+(* matrix Piola map of the Hellan-Herrmann-Johnson elements (ElementMatrix.gbasis, regenerated einsum), affine cells:
+   the delivered value is c * J S J^T with c = 1/|det|^2, and its normal-normal component with the covariantly mapped
+   normal B^T N (B J = I) is c * N^T S N — for every S, in particular the delivered S(X) of ElementTriHHJ0/1 *)
+Theorem C09_matrix_piola_normal_normal :
+  forall (J B S : nat -> nat -> Q) (N : nat -> Q) (c : Q),
+  B 0%nat 0%nat * J 0%nat 0%nat + B 0%nat 1%nat * J 1%nat 0%nat == 1 ->
+  B 0%nat 0%nat * J 0%nat 1%nat + B 0%nat 1%nat * J 1%nat 1%nat == 0 ->
+  B 1%nat 0%nat * J 0%nat 0%nat + B 1%nat 1%nat * J 1%nat 0%nat == 0 ->
+  B 1%nat 0%nat * J 0%nat 1%nat + B 1%nat 1%nat * J 1%nat 1%nat == 1 ->
+  (B 0%nat 0%nat * N 0%nat + B 1%nat 0%nat * N 1%nat) * gen_matrix_value2 J S J c 0%nat 0%nat * (B 0%nat 0%nat * N 0%nat + B 1%nat 0%nat * N 1%nat) + (B 0%nat 0%nat * N 0%nat + B 1%nat 0%nat * N 1%nat) * gen_matrix_value2 J S J c 0%nat 1%nat * (B 0%nat 1%nat * N 0%nat + B 1%nat 1%nat * N 1%nat) + (B 0%nat 1%nat * N 0%nat + B 1%nat 1%nat * N 1%nat) * gen_matrix_value2 J S J c 1%nat 0%nat * (B 0%nat 0%nat * N 0%nat + B 1%nat 0%nat * N 1%nat) + (B 0%nat 1%nat * N 0%nat + B 1%nat 1%nat * N 1%nat) * gen_matrix_value2 J S J c 1%nat 1%nat * (B 0%nat 1%nat * N 0%nat + B 1%nat 1%nat * N 1%nat)
+  == c * (N 0%nat * S 0%nat 0%nat * N 0%nat + N 0%nat * S 0%nat 1%nat * N 1%nat + N 1%nat * S 1%nat 0%nat * N 0%nat + N 1%nat * S 1%nat 1%nat * N 1%nat).
+Proof. exact matrix_piola_normal_normal2. Qed.
+Print Assumptions C09_matrix_piola_normal_normal.
 
 (* ---- the derivative of analysis (Coquelicot): at every REAL point the delivered gradient component is the
    partial derivative of the delivered value; div / curl are sums / differences of such derivatives.
